@@ -240,12 +240,40 @@ func genSec(r *rng, period uint64) int64 {
 func timeFields(r *rng, sec int64) string {
 	nsec := pick(r, []int64{0, 0, 1, 499999999, 500000000, 500000001, 999999999, int64(r.intn(1000000000))})
 	zone := pick(r, []int64{0, 1, 3600, -3600, 19800, -43200, 50400, 12345})
-	mono := r.intn(2)
+	mono := r.intn(3) // 0: wall only; 1: with a monotonic reading consistent with the wall clock; 2: wall clock stepped under the reading
 	return fmt.Sprintf("%d %d %d %d", sec, nsec, zone, mono)
+}
+
+// steppedClock: histories of instants that all carry (nearly) the same monotonic reading while their wall clocks are steps
+// apart — same secret, same parameters (also the nil parameter), in both directions.  The step of an instant is decided by
+// its wall clock alone.
+func steppedClock(r *rng, validate bool) []string {
+	var out []string
+	for i := 0; i < 6; i++ {
+		key := r.bytes(20)
+		sec := int64(1000000000 + r.intn(1000000000))
+		per := pick(r, []uint64{30, 30, 60, 1})
+		p := pick(r, []string{"N", "N", paramStr(6, per, 1, 0), paramStr(8, per, 0, 1)})
+		if p == "N" {
+			per = 30
+		}
+		sp := hxs(base32.StdEncoding.EncodeToString(key))
+		for _, d := range []int64{0, int64(per), -int64(per), 3600, 1, int64(per) * 3 / 2, 86400, -3600} {
+			t := fmt.Sprintf("%d %d 0 2", sec+d, int64(r.intn(1000000000)))
+			if validate {
+				code := refHOTP(key, uint64(sec)/per, 6, 0) // the code of the first instant's step: right only while the wall clock stays in it
+				out = append(out, fmt.Sprintf("vtotp %s %s %s %s", sp, hxs(code), t, p))
+			} else {
+				out = append(out, fmt.Sprintf("gtotp %s %s %s", sp, t, p))
+			}
+		}
+	}
+	return out
 }
 
 func genC02(r *rng, n int, hostile bool) []string {
 	var out []string
+	out = append(out, steppedClock(r, false)...)
 	for i := 0; i < n; i++ {
 		key := genKey(r)
 		per := pick(r, periods)
@@ -440,6 +468,7 @@ func genC03(r *rng, n int, hostile bool) []string {
 func genC04(r *rng, n int, hostile bool) []string {
 	var out []string
 	out = append(out, windowGrid(r, true)...)
+	out = append(out, steppedClock(r, true)...)
 	for i := 0; i < n; i++ {
 		key := genKey(r)
 		d, a := genDigits(r, hostile), genAlgo(r, hostile)
@@ -565,7 +594,7 @@ func grammarSuite(r *rng, wild bool) string {
 }
 
 func genCfg(r *rng, wild bool) cfgT {
-	c := cfgT{kind: pick(r, []string{"C", "C", "M", "S"})}
+	c := cfgT{kind: pick(r, []string{"C", "C", "M", "S", "X"})}
 	c.raw = pick(r, []string{"", "OCRA-1:HOTP-SHA1-6:QN08", "x", "suite \xff\x00 text", strings.Repeat("R", 300), grammarSuite(r, false)})
 	c.hash = r.intn(3)
 	c.digits = int64(4 + r.intn(7))
@@ -899,7 +928,7 @@ func genC14(r *rng, n int, hostile bool) []string {
 		c.kind = "C"
 		in := genInputFor(r, c)
 		out = append(out, fmt.Sprintf("adm %s %s", c.str(), in))
-		c.kind = pick(r, []string{"C", "M", "S"})
+		c.kind = pick(r, []string{"C", "M", "S", "X"})
 		out = append(out, fmt.Sprintf("gocra %s %s %s", hxs(spell(r, genKey(r))), c.str(), in))
 	}
 	return out
@@ -997,6 +1026,7 @@ func rareOps(r *rng) []string {
 		a, c := int(rc[0]), rc[1]
 		for _, d := range []int{10, 9, 8, 6, 1} {
 			out = append(out, fmt.Sprintf("ghotp %s %d %s", hxs(rfcKeyB32), c, paramStr(d, 0, 0, a)))
+			out = append(out, fmt.Sprintf("derive %s %d %d %d", hx([]byte("12345678901234567890")), c, d, a)) // under js/wasm also the binding's own derivation
 			code := refHOTP([]byte("12345678901234567890"), c, d, a)
 			for _, v := range []string{code, "+" + code[1:], " " + code[1:], code[1:], "-" + code[1:]} {
 				out = append(out, fmt.Sprintf("vhotp %s %s %d %s", hxs(rfcKeyB32), hxs(v), c+uint64(r.intn(3))-1, paramStr(d, 0, 1, a)))
@@ -1207,11 +1237,35 @@ func malformedSuite(r *rng) string {
 	}
 }
 
+// bitFlips: every single-bit change of every byte of a few well-formed suite strings (covering each kind of token), through
+// the parser and through the constructor.  A well-formed string has no well-formed neighbour at distance one bit except where
+// a letter changes case or a digit changes into another digit; everything else — control bytes that differ from a digit or
+// letter only in bit 5, bytes above 0x7f, punctuation — has to be refused, not read as the character it resembles.
+func bitFlips(r *rng) []string {
+	bases := []string{"OCRA-1:HOTP-SHA1-6:QN08", "OCRA-1:HOTP-SHA256-8:C-QN10-PSHA1-S064-T1M", "OCRA-1:HOTP-SHA512-10:QN08-PSHA512-T30S",
+		"ocra-1:hotp-sha256-7:c-qn10-psha256-s-t2h", "OCRA-1:HOTP-SHA1-4:C-QN08-PSHA256-S128-T59S"}
+	var out []string
+	for _, b := range bases {
+		for i := 0; i < len(b); i++ {
+			for bit := 0; bit < 8; bit++ {
+				m := []byte(b)
+				m[i] ^= 1 << bit
+				out = append(out, "suite "+hx(m))
+				if bit == 4 || bit == 5 || bit == 7 {
+					out = append(out, "parse "+hx(m))
+				}
+			}
+		}
+	}
+	return out
+}
+
 func genC15(r *rng, n int, hostile bool) []string {
 	var out []string
 	for _, name := range registered {
 		out = append(out, "suite "+hxs(name))
 	}
+	out = append(out, bitFlips(r)...)
 	for i := 0; i < n; i++ {
 		switch r.intn(6) {
 		case 0, 1, 2:
